@@ -44,6 +44,7 @@ class Actor:
         self.result: Any = None
         self.exc: Optional[BaseException] = None
         self.nsteps = 0
+        self.last_ran = -1
         self.thread: Optional[threading.Thread] = None
         self.rng = random.Random(f"actor:{seed}:{name}")
         self.daemonic = False       # env actors: the run may end while they are parked
@@ -72,7 +73,13 @@ class Scripted(Strategy):
 
     def choose(self, n: int, runnable: List[Actor], current: Optional[Actor]) -> Actor:
         preempt = current is not None and current in runnable
-        default = current if preempt else runnable[0]
+        if preempt:
+            default = current
+        else:
+            # fair default: an actor that is not merely resuming from a sleep goes first (two
+            # spinning waiters must not starve the lock holder), then the least recently run
+            awake = [a for a in runnable if a.wake_at is None]
+            default = awake[0] if awake else min(runnable, key=lambda a: a.last_ran)
         alts = [a.name for a in runnable if a is not default]
         self.records.append((n, default.name, alts, preempt))
         want = self.dev.get(n)
@@ -343,13 +350,16 @@ class Scheduler:
             if n >= self.max_steps:
                 outcome = "budget"
                 break
-            for a in runnable:
-                a.yielded_seen = True  # noqa
+            now = self.clock.now()
+            if all(a.wake_at is not None and a.wake_at > now for a in runnable):
+                # every actor that could run is asleep: time passes until the first wake-up
+                self.clock.advance(min(a.wake_at for a in runnable) - now + 1e-6)  # type: ignore
+                self.count("clock_jumps")
             chosen = self.strategy.choose(n, runnable, self.current)
+            chosen.last_ran = n
             n += 1
             self.nstep = n
             self.trace.append((chosen.name, chosen.label))
-            was_sleep = chosen.wake_at is not None
             # everyone else who yielded may now be resumed (another actor stepped)
             for a in self.actors:
                 if a is not chosen and a.yielded:
@@ -367,7 +377,6 @@ class Scheduler:
                 self.strategy.on_yield(chosen)
             for m in self.monitors:
                 m(self, chosen)
-            del was_sleep
         self.outcome = outcome
         self._shutdown()
         return outcome
